@@ -481,7 +481,15 @@ REF_FCN static REF_STATUS ref_part_meshb_cell(REF_CELL ref_cell, REF_LONG ncell,
         }
       }
       for (cell = 0; cell < section_size; cell++)
-        for (node = 0; node < node_per; node++) c2n[node + size_per * cell]--;
+        for (node = 0; node < node_per; node++) {
+          if (c2n[node + size_per * cell] < 1 ||
+              nnode < c2n[node + size_per * cell]) {
+            printf("cell vertex " REF_GLOB_FMT " of %ld nodes\n",
+                   c2n[node + size_per * cell], (long)nnode);
+            RSS(REF_INVALID, "cell vertex index out of range");
+          }
+          c2n[node + size_per * cell]--;
+        }
 
       if (REF_CELL_PYR == ref_cell_type(ref_cell)) {
         REF_GLOB n0, n1, n2, n3, n4;
